@@ -18,6 +18,7 @@ import vlib
 PID = "C09"
 FILES = ["theories/Properties/C09.v", "theories/Examples/C09Examples.v"]
 UNFIXABLE = {"KUConflict", "KNil", "KFkDangling"}
+ORDER_KEY = "C09:fix-order-unique-on-nullable-fk"
 
 
 def parse_phases(line):
@@ -128,30 +129,24 @@ def genuine_conflict(sch, p):
     return False
 
 
-def oracle(c, sch, case, io, gen):
-    """direct verdicts on the implementation's observation; returns True if a violation was reported"""
-    rep = lambda key, what: c.violation(key, what, dict(case=case, impl_phases={k: dict(v, facts=len(v["facts"])) for k, v in io.items()},
-                                                        impl=" | ".join("%s %s %s R %s" % (k, v["status"], " ".join(v["flags"]), " ".join(v["reports"])) for k, v in io.items()),
-                                                        gen=gen))
+def oracle(sch, io):
+    """direct verdicts on the implementation's observation: list of (key, description)"""
+    out = []
+    rep = lambda key, what: out.append((key, what))
     pre = io["PRE"]["facts"]
-    bad = False
     # read-only in check mode (both transaction kinds), and a read-only transaction must be usable
     for tag in ("CKR", "CKW"):
         ph = io[tag]
         if ph["status"] != "ok":
             rep("C09:check-only-fails-%s" % ("readonly-tx" if tag == "CKR" else "write-tx"),
                 "check-only CheckIntegrity in a %s transaction ended with %s" % ("read-only" if tag == "CKR" else "write", ph["status"]))
-            bad = True
         if ph["facts"] != pre:
             rep("C09:check-only-changed-db", "check-only mode changed the database: +%s -%s" % (
                 sorted(set(ph["facts"]) - set(pre))[:4], sorted(set(pre) - set(ph["facts"]))[:4]))
-            bad = True
         elif "RAWCHANGED" in ph["flags"]:
             rep("C09:check-only-changed-db-raw", "check-only mode wrote to the database file (buckets created; same facts, different byte-exact dump)")
-            bad = True
         if any(r.endswith(":1") for r in ph["reports"]):
             rep("C09:check-only-reports-fixed", "check-only mode reported an inconsistency as fixed: %s" % ph["reports"])
-            bad = True
     # sound + complete, judged by the independent consistency evaluation of the facts
     facts_nj, junk = split_junk(sch, pre)
     probs = consistency_problems(sch, facts_nj)
@@ -161,29 +156,102 @@ def oracle(c, sch, case, io, gen):
             continue
         if not probs and not junk and ph["reports"]:
             rep("C09:sound-false-report", "the database is consistent but check-only reports %s" % ph["reports"][:6])
-            bad = True
         if (probs or junk) and not ph["reports"]:
             rep("C09:complete-missed", "inconsistencies (%s) but check-only reports nothing" % "; ".join((probs + junk)[:3]))
-            bad = True
     # convergence of fix
     fx, rck = io["FIX"], io["RCK"]
     if fx["status"] == "ok" and rck["status"] == "ok":
         left = [r for r in rck["reports"] if r.split(":")[0] not in UNFIXABLE or r.endswith(":1")]
         if left:
             rep("C09:fix-not-convergent", "after a fix run the re-check still reports repairable inconsistencies: %s" % left[:6])
-            bad = True
         after_nj, after_junk = split_junk(sch, fx["facts"])
         rest = [p for p in consistency_problems(sch, after_nj) if not genuine_conflict(sch, p)] + after_junk
         if rest:
             rep("C09:fix-leaves-inconsistency", "after a fix run the indexes do not mirror the entities: %s" % "; ".join(rest[:3]))
-            bad = True
         if not rck["reports"] and consistency_problems(sch, after_nj):
             rep("C09:complete-missed", "re-check is clean but the database is inconsistent: %s" % "; ".join(consistency_problems(sch, after_nj)[:3]))
-            bad = True
+        if rck["facts"] != fx["facts"]:
+            rep("C09:check-only-changed-db", "the re-check changed the database")
     elif fx["status"] != "ok":
         rep("C09:fix-fails", "fix run ended with " + fx["status"])
-        bad = True
-    return bad
+    if fx["status"] == "ok" and fx["facts"] != io["CKW"]["facts"] and not any(r.endswith(":1") for r in fx["reports"]):
+        rep("C09:fix-without-report", "the fix run changed the database without reporting anything as fixed: +%s -%s" % (
+            sorted(set(fx["facts"]) - set(io["CKW"]["facts"]))[:4], sorted(set(io["CKW"]["facts"]) - set(fx["facts"]))[:4]))
+    seen, uniq = set(), []
+    for k, w in out:
+        if k not in seen:
+            seen.add(k)
+            uniq.append((k, w))
+    return uniq
+
+
+CORR_ARITY = {"UD": 4, "SDK": 4, "SAK": 4, "SJ": 4, "FN": 4, "UP": 5, "SDI": 5, "SAI": 5, "ED": 5, "EA": 5, "FS": 5}
+
+
+def split_case(case):
+    """-> (schema text, [tx texts], [corruption texts])"""
+    body, _, corr = case.partition(" CORRUPT ")
+    parts = body.split(" TX ")
+    toks = corr.split()[1:] if corr else []
+    cs, i = [], 0
+    while i < len(toks):
+        n = CORR_ARITY[toks[i]]
+        cs.append(" ".join(toks[i:i + n]))
+        i += n
+    return parts[0], parts[1:], cs
+
+
+def join_case(schema, txs, cs):
+    return schema + "".join(" TX " + t for t in txs) + " CORRUPT %d" % len(cs) + "".join(" " + x for x in cs)
+
+
+def run_one(c, harness, case):
+    d = os.path.join(c.work, "shrink")
+    os.makedirs(d, exist_ok=True)
+    with open(os.path.join(d, "in.txt"), "w") as f:
+        f.write(case + "\n")
+    rc, out = vlib.run([harness, "c09", "--out", d, "--tmp", d, "--corpus", os.path.join(d, "in.txt"), "--only-corpus", "1"], timeout=120)
+    if rc != 0:
+        return None
+    lines = vlib.read_lines(os.path.join(d, "impl.txt"))
+    return lines[0] if lines else None
+
+
+def shrink(c, harness, case, key, budget=40):
+    """greedy one-at-a-time removal of corruptions, then of transactions, keeping the same violation key"""
+    schema, txs, cs = split_case(case)
+    sch = storefam.Schema(schema.split())
+    best_impl = None
+
+    def still(txs2, cs2):
+        nonlocal budget, best_impl
+        if budget <= 0:
+            return False
+        budget -= 1
+        obs = run_one(c, harness, join_case(schema, txs2, cs2))
+        if obs is None:
+            return False
+        try:
+            keys = [k for k, _ in oracle(sch, parse_phases(obs))]
+        except Exception:
+            return False
+        if key in keys:
+            best_impl = obs
+            return True
+        return False
+
+    changed = True
+    while changed and budget > 0:
+        changed = False
+        for k in range(len(cs) - 1, -1, -1):
+            cand = cs[:k] + cs[k + 1:]
+            if still(txs, cand):
+                cs, changed = cand, True
+        for k in range(len(txs) - 1, -1, -1):
+            cand = txs[:k] + txs[k + 1:]
+            if still(cand, cs):
+                txs, changed = cand, True
+    return join_case(schema, txs, cs), best_impl
 
 
 def compare(sch, io, mo):
@@ -230,8 +298,13 @@ def main(argv):
         args = [harness, "c09", "--out", c.work, "--tmp", c.work, "--corpus", rin, "--only-corpus", "1"]
     else:
         args = [harness, "c09", "--seed", str(c.seed), "--tier", c.tier, "--out", c.work, "--tmp", c.work]
-        if os.path.exists(corpus):
-            args += ["--corpus", corpus]
+        # corpus: defect reproductions / stress cases, then the order-dependence witness (known finding)
+        merged = os.path.join(c.work, "corpus.txt")
+        with open(merged, "w") as f:
+            for cp in (corpus, os.path.join(vlib.VERIF, "corpus", "store", "c09_order.txt")):
+                if os.path.exists(cp):
+                    f.write(open(cp).read() + "\n")
+        args += ["--corpus", merged]
     gen = dict(seed=c.seed, tier=c.tier)
     rc, out = vlib.run(args, timeout=3000)
     if rc != 0:
@@ -245,6 +318,7 @@ def main(argv):
 
     distinct = set()
     disagreements = []
+    shrunk = set()
     kinds_seen = Counter()
     for idx, (case, i, m) in enumerate(zip(cases, impl, modl)):
         if not case.strip():
@@ -257,11 +331,6 @@ def main(argv):
         for ph in ("CKW", "FIX", "RCK"):
             for r in io[ph]["reports"]:
                 kinds_seen[ph + ":" + r] += 1
-        if oracle(c, sch, case, io, dict(gen, index=idx)):
-            continue
-        d = compare(sch, io, mo)
-        if d:
-            disagreements.append((case, i, m, d, idx))
         if c.replay:
             for tag in ("PRE", "CKR", "CKW", "FIX", "RCK"):
                 vlib.log("REPLAY %s\n  impl : %s %s %s\n  model: %s %s %s" % (tag, io[tag]["status"], io[tag]["flags"], io[tag]["reports"],
@@ -269,6 +338,30 @@ def main(argv):
                 fa, fb = set(io[tag]["facts"]), set(mo[tag]["facts"])
                 if fa != fb:
                     vlib.log("  facts only impl : %s\n  facts only model: %s" % (sorted(fa - fb), sorted(fb - fa)))
+        found = oracle(sch, io)
+        if getattr(sch, "wiring", "") == "ufk":
+            # a schema outside wf_c09 (unique index on a nullable fk field): non-convergence is the known order dependence
+            found = [(ORDER_KEY if k in ("C09:fix-not-convergent", "C09:fix-leaves-inconsistency") else k,
+                      "unique index on a field with a nullable fk constraint: " + w) for k, w in found]
+            found = [kw for n, kw in enumerate(found) if kw[0] not in [x[0] for x in found[:n]]]
+        for key, what in found:
+            if sum(1 for v in c.violations if v[0] == key) >= 3 or any(f.get("status") == "known" and f.get("key") == key for f in c.findings):
+                c.violation(key, what, dict(case=case, gen=dict(gen, index=idx)))
+                continue
+            small, small_impl = case, i
+            if not c.replay and key not in shrunk:
+                shrunk.add(key)
+                small, si = shrink(c, harness, case, key)
+                small_impl = si or i
+            sio = parse_phases(small_impl)
+            c.violation(key, what, dict(case=small, original_case=case if small != case else None,
+                                        impl=" | ".join("%s %s %s R %s" % (k, v["status"], " ".join(v["flags"]), " ".join(v["reports"])) for k, v in sio.items()),
+                                        corruptions=split_case(small)[2], gen=dict(gen, index=idx)))
+        if found:
+            continue
+        d = compare(sch, io, mo)
+        if d:
+            disagreements.append((case, i, m, d, idx))
     c.cov["evaluations"] = len(cases)
     c.cov["distinct_nontrivial"] = len(distinct)
     c.cov["disagreements_checked"] = len(disagreements)
